@@ -50,16 +50,32 @@ static char *mutate(const char *src, int k, int i) {
 	return res;
 }
 static const uint8_t BYTES[12] = {':', '-', ' ', '\n', '#', '[', '{', '"', '&', '*', 0x00, 0xFF};
-typedef struct { uint8_t file; uint8_t kind; uint16_t line; uint8_t mode; } c13_case_t;   /* mode 0 structural, 1 byte fault (line = offset, kind = byte index), 2 missing file, 3 empty file */
+typedef struct { uint8_t file; uint8_t kind; uint16_t line; uint8_t mode; uint8_t base; } c13_case_t;   /* mode 0 structural, 1 byte fault (line = offset, kind = byte index), 2 missing file, 3 empty file */
 static const char *FILEN[3] = {"board", "track", "train"};
 
+/* base configuration 1: the standard configuration with ZERO wherever a number, port, address, value or bit may be zero.
+ * A record the parser has only partly built holds zeros, so in this base a half-read entry collides with a complete
+ * earlier one (duplicate checks, look-ups by number) — paths the standard numbering (2, 3, 0x10, ...) never reaches. */
+static void zero_heavy(cm_model_t *m) {
+	for (int b = 0; b < m->nb; b++) { cm_board_t *B = &m->b[b];
+		if (B->nfeatures) { B->features[0].number = 0; B->features[0].value = 0; }
+		if (B->npb) { B->pb[0].number = 0; for (int a = 0; a < B->pb[0].naspects; a++) B->pb[0].aspects[a].value = (uint8_t) a; }
+		if (B->nsb) { B->sb[0].number = B->npb ? 1 : 0; for (int a = 0; a < B->sb[0].naspects; a++) B->sb[0].aspects[a].value = (uint8_t) a; }
+		if (B->nper) { B->per[0].number = 0; B->per[0].port0 = 0; B->per[0].port1 = 0; for (int a = 0; a < B->per[0].naspects; a++) B->per[0].aspects[a].value = (uint8_t) a; }
+		if (B->npd) { B->pd[0].addrl = 0; B->pd[0].addrh = 0; B->pd[0].extended = 0; }
+		if (B->nseg) B->seg[0].addr = 0;
+	}
+	if (m->nt > 1) { m->t[1].addrl = 0x01; m->t[1].addrh = 0x00; if (m->t[1].nper) m->t[1].per[0].bit = 0; }
+}
+static void base_model(int base) { cm_std(&M); if (base == 1) zero_heavy(&M); }
 static int silent; static int hook(int node, const rc_msg_t *m) { (void) node; (void) m; return silent; }
 static int run_case(const c13_case_t *c, char *human, size_t hn) {
-	cm_std(&M); cm_install(&M); SB.on_msg = hook; silent = 0;
+	base_model(c->base); cm_install(&M); SB.on_msg = hook; silent = 0;
 	const char *txt[3] = {M.board_txt, M.track_txt, M.train_txt}; static char bytebuf[16000];
-	if (c->mode == 0) { char *mt = mutate(txt[c->file], c->kind, c->line); if (!mt) return 0; txt[c->file] = mt; snprintf(human, hn, "%s file: %s at line %d", FILEN[c->file], KNAME[c->kind], c->line + 1); }
+	if (c->mode == 0) { char *mt = mutate(txt[c->file], c->kind, c->line); if (!mt) return 0; txt[c->file] = mt; snprintf(human, hn, "%s%s file: %s at line %d", c->base ? "[zero-heavy base] " : "", FILEN[c->file], KNAME[c->kind], c->line + 1); }
 	else if (c->mode == 1) { size_t len = strlen(txt[c->file]); if (c->line >= len) return 0; if ((uint8_t) txt[c->file][c->line] == BYTES[c->kind]) return 0;
 		memcpy(bytebuf, txt[c->file], len + 1); bytebuf[c->line] = (char) BYTES[c->kind]; txt[c->file] = bytebuf; snprintf(human, hn, "%s file: byte %02x written at offset %d", FILEN[c->file], BYTES[c->kind], c->line); }
+	else if (c->mode == 4) { snprintf(human, hn, "unmutated base configuration %d", c->base); }
 	else if (c->mode == 2) { txt[c->file] = NULL; snprintf(human, hn, "%s file missing", FILEN[c->file]); }
 	else { txt[c->file] = ""; snprintf(human, hn, "%s file empty", FILEN[c->file]); }
 	env_set_cfg(txt[0], txt[1], txt[2]);
@@ -67,6 +83,7 @@ static int run_case(const c13_case_t *c, char *human, size_t hn) {
 	int rc = hx_start_normal(0); hx_quiesce();
 	hx_emit_san_events(human); hx_emit_ledger_violations("C13");
 	if (rc != 0 && rc != 1) res_violation("start-return-value: start returned neither 0 nor 1", "%s: %d", human, rc);
+	if (c->mode == 4 && rc != 0) res_infra("the unmutated base configuration %d is rejected", c->base);
 	if (rc == 1) {
 		if (bidib_running) res_violation("running-after-failed-start: start returned 1 but the library is not stopped", "%s", human);
 		if (vs_held_count(0)) { char h[200]; vs_held_desc(0, h, sizeof h); char cls[260]; snprintf(cls, sizeof cls, "lock-held-after-failed-start locks=%s", h); res_violation(cls, "%s", human); }
@@ -103,22 +120,27 @@ static c13_case_t *cases; static long ncases, capcases;
 static void add_case(c13_case_t c) { if (ncases == capcases) { capcases = capcases ? capcases * 2 : 8192; cases = realloc(cases, sizeof(c13_case_t) * (size_t) capcases); } cases[ncases++] = c; }
 static size_t c13_gen(long idx, uint8_t *payload, char *human, size_t hn) {
 	c13_case_t *c = &cases[idx]; memcpy(payload, c, sizeof *c);
-	if (c->mode == 0) snprintf(human, hn, "%s file: %s at line %d", FILEN[c->file], KNAME[c->kind], c->line + 1);
+	if (c->mode == 0) snprintf(human, hn, "%s%s file: %s at line %d", c->base ? "[zero-heavy base] " : "", FILEN[c->file], KNAME[c->kind], c->line + 1);
 	else if (c->mode == 1) snprintf(human, hn, "%s file: byte %02x at offset %d", FILEN[c->file], BYTES[c->kind], c->line);
+	else if (c->mode == 4) snprintf(human, hn, "unmutated base configuration %d", c->base);
 	else snprintf(human, hn, "%s file %s", FILEN[c->file], c->mode == 2 ? "missing" : "empty");
 	return sizeof *c;
 }
 void c13_register(void) { harness_register("c13.start", c13_child); }
 int c13_run(const char *tier) {
 	int thorough = !strcmp(tier, "thorough");
-	cm_std(&M); cm_emit(&M); const char *txt[3] = {M.board_txt, M.track_txt, M.train_txt};
 	ncases = 0;
-	for (int f = 0; f < 3; f++) { add_case((c13_case_t) {(uint8_t) f, 0, 0, 2}); add_case((c13_case_t) {(uint8_t) f, 0, 0, 3});
+	for (int base = 0; base < 2; base++) {
+	base_model(base); cm_emit(&M); const char *txt[3] = {M.board_txt, M.track_txt, M.train_txt};
+	for (int f = 0; f < 3; f++) { if (!base) { add_case((c13_case_t) {(uint8_t) f, 0, 0, 2, 0}); add_case((c13_case_t) {(uint8_t) f, 0, 0, 3, 0}); }
 		text_t t; split(txt[f], &t);
-		for (int i = 0; i < t.n; i++) for (int k = 0; k < K_N; k++) { char *m = mutate(txt[f], k, i); if (m) { add_case((c13_case_t) {(uint8_t) f, (uint8_t) k, (uint16_t) i, 0}); free(m); } }
+		for (int i = 0; i < t.n; i++) for (int k = 0; k < K_N; k++) { char *m = mutate(txt[f], k, i); if (m) { add_case((c13_case_t) {(uint8_t) f, (uint8_t) k, (uint16_t) i, 0, (uint8_t) base}); free(m); } }
 		size_t len = strlen(txt[f]); int stride = thorough ? 1 : 7;
-		for (size_t o = 0; o < len; o += (size_t) stride) for (int b = 0; b < 12; b++) if ((uint8_t) txt[f][o] != BYTES[b]) add_case((c13_case_t) {(uint8_t) f, (uint8_t) b, (uint16_t) o, 1});
+		if (!base || thorough) for (size_t o = 0; o < len; o += (size_t) stride) for (int b = 0; b < 12; b++) if ((uint8_t) txt[f][o] != BYTES[b]) add_case((c13_case_t) {(uint8_t) f, (uint8_t) b, (uint16_t) o, 1, (uint8_t) base});
 	}
+	}
+	/* both unmutated bases must be accepted */
+	add_case((c13_case_t) {0, 0, 0, 4, 0}); add_case((c13_case_t) {0, 0, 0, 4, 1});
 	ex_spec_t e = { .harness = "c13.start", .ncases = ncases, .gen = c13_gen, .label = "c13.start" };
 	ex_map(&e);
 	rep_count("executions", e.done); rep_count("states", rep_get("accepted") + rep_get("rejected") > 0 ? 2 : 1); rep_count("transitions", e.done); rep_count("distinct_nontrivial", e.done); rep_flag("exhaustive", e.exhaustive);
